@@ -1,6 +1,7 @@
 import Gallia.Proofs.Lemmas.SessionScan
 import Gallia.Proofs.Lemmas.SessionScanBfs
 import Gallia.Proofs.Lemmas.SessionScanReport
+import Gallia.Proofs.Lemmas.SessionScanSorted
 /-
   C09 — the session scan reports exactly the sessions reachable within the depth limit.
 
@@ -140,6 +141,16 @@ theorem reachSet_is_spec (g : Sess → Sess → Ans) (skip : List Sess) (d : Nat
 theorem result_eq_reachSet (c : Cfg) (E : Ecu) (hd : DefaultReentry E.g) (s : Sess) :
     s ∈ result (scan c E) ↔ s ∈ reachSet E.g c.skip c.depth := by
   rw [scan_exact c E hd, mem_reachSet]
+
+/-- `SessionsScanner.result` is strictly ascending (sorted, every session once) -/
+theorem result_ascending (c : Cfg) (E : Ecu) : (result (scan c E)).Pairwise (· < ·) := result_strict _
+
+/-- **The report, as a list, is the specification**: on the property's ECU class `SessionsScanner.result` equals
+    the ascending list of the sessions reachable within the depth limit - this is the comparison the
+    correspondence harness makes on the real scanner's output. -/
+theorem result_is_reachSet (c : Cfg) (E : Ecu) (hd : DefaultReentry E.g) :
+    result (scan c E) = reachSet E.g c.skip c.depth :=
+  eq_of_strict_of_mem_iff _ _ (result_strict _) (reachSet_strict _ _ _) (result_eq_reachSet c E hd)
 
 /-! Non-vacuity: the hypotheses are satisfiable by a non-trivial ECU, and session 3 of `demoEcu` is reachable
     within depth 2 only through the non-default session 2. -/
